@@ -359,6 +359,46 @@ impl Check for C12 {
             (vec![Op::PushClipRect(3, 5, S - 1, S - 2), Op::PushLayer(1.0, BlendMode::SrcOver)], vec![Op::PopLayer, Op::PopClip]),
             (vec![Op::PushClipRect(3, 5, S - 1, S - 2), Op::PushLayer(1.0, BlendMode::SrcOver), Op::PopClip], vec![Op::PopLayer]),
         ];
+        // a clip path on top, inside a layer whose origin is not the surface origin, drawn with modes
+        // that go through the clip-and-blend route (opaque stops over a transparent layer: Src, Xor,
+        // Add, SrcAtop-over-white give the gradient where the clip covers fully)
+        {
+            let lctx: Vec<(Vec<Op>, Vec<Op>)> = vec![
+                (vec![Op::PushClipRect(3, 5, S - 1, S - 2), Op::PushLayer(1.0, BlendMode::SrcOver), Op::PushClip(diamond.clone())], vec![Op::PopClip, Op::PopLayer, Op::PopClip]),
+                (vec![Op::PushClipRect(4, 2, S, S - 3), Op::PushLayer(1.0, BlendMode::SrcOver), Op::PopClip, Op::PushClip(diamond.clone())], vec![Op::PopClip, Op::PopLayer]),
+                (vec![Op::PushClip(diamond.clone()), Op::PushClipRect(2, 6, S - 2, S), Op::PushLayer(1.0, BlendMode::SrcOver)], vec![Op::PopLayer, Op::PopClip, Op::PopClip]),
+            ];
+            let lmodes = [BlendMode::Src, BlendMode::Xor, BlendMode::Add, BlendMode::SrcOver];
+            run.bound("clip path inside offset layers, non-SrcOver modes", format!("{} geometries x {} contexts (layer origins (3,5), (4,2), (2,6); clip path pushed inside / before the layer) x {} modes x 2 spreads, opaque stops over a transparent surface", ctx_geos.len(), lctx.len(), lmodes.len()));
+            run.par(ctx_geos.len() * lctx.len(), |s, l| {
+                let (kind, p) = &ctx_geos[s / lctx.len()];
+                let (pre, suf) = &lctx[s % lctx.len()];
+                for mode in lmodes {
+                    for spread in [Spr::Pad, Spr::Repeat] {
+                        let src = make(kind, p, stops[0].clone(), spread);
+                        let mut ops = pre.clone();
+                        ops.push(Op::Fill(PathSpec::rect(-200., -200., 400., 400.), src, Opts { mode, alpha: 1.0, aa: true }));
+                        ops.extend(suf.iter().cloned());
+                        let scene = Scene { w: S, h: S, dst: Dst::Zero, ops };
+                        l.states += 1;
+                        l.transitions += scene.ops.len() as u64;
+                        l.traces += 1;
+                        l.evals += 1;
+                        match eval(&scene) {
+                            Ok((hsh, n, sk)) => {
+                                l.outcome(hsh);
+                                l.count("pixels_asserted", n);
+                                l.count("pixels_not_asserted_discontinuity", sk);
+                                if n >= 100 {
+                                    l.nontrivial += 1;
+                                }
+                            }
+                            Err(v) => run.report(28_000 + s, v),
+                        }
+                    }
+                }
+            });
+        }
         run.bound("after-state-calls-and-under-clip-paths", format!("{} geometries x {} transforms x 3 spreads x 2 alphas x {} contexts (layer push/pop, nested, clear under a clip rect, diamond clip path, rectangular clip path)", ctx_geos.len(), ctm.len(), pres.len()));
         run.par(ctx_geos.len() * ctm.len(), |s, l| {
             let (kind, p) = &ctx_geos[s / ctm.len()];
@@ -441,11 +481,38 @@ impl Check for C12 {
         // nothing (linear and radial: the others leave the 16.16 range of the gradient matrix there)
         {
             let tg: Vec<(&'static str, Vec<f32>)> = vec![("linear", vec![2.5, 3.25, 20.0, 4.0]), ("linear", vec![6.0, 21.5, 2.5, 3.25]), ("radial", vec![12.0, 12.0, 16.0]), ("radial", vec![2.5, 3.25, 4.0])];
-            run.bound("tiny determinants", format!("{} linear / radial geometries given in user units of 1/k pixel under scale 1/k, k in {{4096, 1000, 300}} x 3 spreads x 2 alphas x Src / SrcOver", tg.len()));
+            run.bound("tiny determinants", format!("{} linear / radial geometries given in user units of 1/k pixel under scale 1/k, k in {{4096, 1000, 300}} x 3 spreads x 2 alphas x Src / SrcOver; linear gradients in user units of 2^24 / 2^28 pixels (a few 1e-7 units long) under that magnification", tg.len()));
             run.par(tg.len() * 3, |s, l| {
                 let (kind, p) = &tg[s / 3];
                 let k = [4096.0f32, 1000.0, 300.0][s % 3];
                 let pk: Vec<f32> = p.iter().map(|v| v * k).collect();
+                // and the other way round: user units of 2^24 / 2^28 pixels, the gradient a few 1e-7
+                // units long (linear only)
+                if *kind == "linear" {
+                    for m in [16777216.0f32, 268435456.0] {
+                        let pm: Vec<f32> = p.iter().map(|v| v / m).collect();
+                        for spread in [Spr::Pad, Spr::Repeat, Spr::Reflect] {
+                            let src = make(kind, &pm, stops[1].clone(), spread);
+                            let ops = vec![Op::SetTransform([m, 0., 0., m, 0., 0.]), Op::Fill(PathSpec::rect(-200.0 / m, -200.0 / m, 400.0 / m, 400.0 / m), src, Opts { mode: BlendMode::Src, alpha: 1.0, aa: true })];
+                            let scene = Scene { w: S, h: S, dst: Dst::White, ops };
+                            l.states += 1;
+                            l.transitions += 2;
+                            l.traces += 1;
+                            l.evals += 1;
+                            match eval(&scene) {
+                                Ok((hsh, n, sk)) => {
+                                    l.outcome(hsh);
+                                    l.count("pixels_asserted", n);
+                                    l.count("pixels_not_asserted_discontinuity", sk);
+                                    if n >= 100 {
+                                        l.nontrivial += 1;
+                                    }
+                                }
+                                Err(v) => run.report(26_500 + s, v),
+                            }
+                        }
+                    }
+                }
                 for spread in [Spr::Pad, Spr::Repeat, Spr::Reflect] {
                     for alpha in [1.0f32, 0.5] {
                         for over in [false, true] {
